@@ -140,6 +140,19 @@ func check(spec *ukit.Spec, res *ux.Result, only *replay) {
 			}
 		})
 	}
+	// the typed entry points are the same operations with a static type: same verdicts, same values
+	for i, raw := range raws {
+		if ux.Stop() {
+			res.Capped = true
+			break
+		}
+		guard("UnserializeType", i, raw, func() {
+			res.Evaluations++
+			if d := ukit.TypedDisagreement(sch, raw); d != "" {
+				fail(fmt.Sprintf("%s (%s)", ukit.DisagreementClass(d), kindOf(spec)), d, "UnserializeType", i, raw)
+			}
+		})
+	}
 	// native path: values of the native type, inside and outside the bounds
 	if spec.Kind == ukit.KTypedEnum {
 		natives = append(natives, ukit.MyStr("a"), ukit.MyStr("zzz"), ukit.MyStr(""))
@@ -154,6 +167,12 @@ func check(spec *ukit.Spec, res *ux.Result, only *replay) {
 		if reflect.TypeOf(nv) != ukit.NativeType(spec) && spec.Kind != ukit.KAny {
 			continue
 		}
+		guard("ValidateType", i, nv, func() {
+			res.Evaluations++
+			if d := ukit.TypedNativeDisagreement(sch, nv); d != "" {
+				fail(fmt.Sprintf("%s (%s)", ukit.DisagreementClass(d), kindOf(spec)), d, "ValidateType", i, nv)
+			}
+		})
 		want := ukit.ValidNative(spec, nv)
 		if want == ukit.Unknown {
 			res.Skipped++
